@@ -172,10 +172,21 @@ func incrementBytes(in []byte) []byte {
 	copy(rv, in)
 	for i := len(rv) - 1; i >= 0; i-- {
 		rv[i] = rv[i] + 1
-		if rv[i] != 0 {
-			// didn't overflow, so stop
-			break
+		if rv[i] == 0 {
+			// overflowed, carry
+			continue
 		}
+		if i > 0 && i < len(rv)-1 && rv[i] >= 0x80 {
+			// prefix coded terms carry 7 bits per byte after the leading
+			// shift byte.  When a carry makes an interior byte invalid,
+			// propagate it at once: otherwise a range whose ends straddle a
+			// carry through n all-ones groups is walked in 128*256^(n-1)
+			// steps and the search effectively never returns.
+			rv[i] = 0
+			continue
+		}
+		// didn't overflow, so stop
+		break
 	}
 	return rv
 }
